@@ -243,7 +243,7 @@ func run(t *testing.T, c *Case) (o Obs) {
 		}
 		all := make(chan struct{})
 		go func() { wg.Wait(); close(all) }()
-		limit := time.NewTimer(last + bound(c.N))
+		limit := time.NewTimer(last + bound(c.N) + time.Duration(c.ExtraThrottleMs)*time.Millisecond)
 		select {
 		case <-all:
 			limit.Stop()
@@ -421,9 +421,32 @@ func judge(c *Case, o *Obs) (vs []verdict, models map[int][]slotModel) {
 			where[idx] = append(where[idx], receipt{cn.ID, s})
 		}
 	}
+	// tDeath: the moment the client itself reported a connection-fatal error
+	// to a caller (a read/write error, timeout, framing or correlation error,
+	// or "connection has died" - not a cancellation, which returns through
+	// the caller's context, and not a body that fails to decode, which leaves
+	// the connection up). From then on the connection and any throttle its
+	// broker imposed are gone: every call issued by then must return within
+	// the ordinary timeouts, not after the rest of the throttle.
+	tDeath := int64(-1)
+	for _, r := range o.Reqs {
+		if r.Returned && !r.OK && !r.HasResp && r.Class != "err-canceled" && r.Class != "err-other" && (tDeath < 0 || r.AtUs < tDeath) {
+			tDeath = r.AtUs
+		}
+	}
+	extraUs := c.ExtraThrottleMs * 1000
 	for i, r := range o.Reqs {
 		if !r.Returned {
-			vs = append(vs, verdict{"hang", fmt.Sprintf("request %d (issued at %dus) had not returned %dus after the last request was issued", i, c.IssueUs[i], o.BoundUs)})
+			vs = append(vs, verdict{"hang", fmt.Sprintf("request %d (issued at %dus) had not returned %dus after the last request was issued", i, c.IssueUs[i], o.BoundUs+extraUs)})
+			continue
+		}
+		if r.AtUs > c.IssueUs[i]+o.BoundUs+extraUs {
+			vs = append(vs, verdict{"hang", fmt.Sprintf("request %d (issued at %dus) returned only at %dus, later than the %dus bound plus %dus of scripted throttles", i, c.IssueUs[i], r.AtUs, o.BoundUs, extraUs)})
+			continue
+		}
+		if tDeath >= 0 && r.AtUs > max(c.IssueUs[i], tDeath)+o.BoundUs {
+			vs = append(vs, verdict{"late-after-connection-death", fmt.Sprintf("the client reported the connection's death to a caller at %dus, but request %d (issued at %dus) returned only at %dus (%s %q): more than the %dus bound later - it kept waiting (throttle of the dead connection: %dms scripted)",
+				tDeath, i, c.IssueUs[i], r.AtUs, r.Class, r.Err, o.BoundUs, c.ExtraThrottleMs)})
 			continue
 		}
 		rs := where[i]
@@ -679,11 +702,14 @@ func TestVerifC22(t *testing.T) {
 		"field in {-1, min int32, 0, 1, 3, 4, 5, exact-1, exact, exact+1, max, max+1, 2^31-1, 'HTTP', TLS alert} and zero-padded frames of size exact+1/max/max+1), prefix (every <=2-byte " +
 		"garbage prefix before the single frame [quick: <=1 byte + 9x256 pairs], with BrokerMaxReadBytes 1KiB and 1MiB; <=1-byte [thorough: <=2-byte] prefixes before the second of two " +
 		"frames), tags (10 hostile response header tag buffers, flexible flavour), throttle (ThrottleMillis=300 in every response), cancel (whole stream and stream cut at every byte x " +
-		"request x moment). Each case runs the real client in its own synctest bubble. " +
+		"request x moment), tdeath (script alphabet per pipelined request R respond / T respond with ThrottleMillis=60s / W withhold, plus close-connection at every position or never: " +
+		"every word of {R,T,W}^n x every close position, n = 2..maxN+1, issue modes simul/stagger/late/late2 [last two requests late]/after - a request issued after a T sleeps the " +
+		"throttle out and the connection dies under it by EOF or by a withheld request's read timeout). Each case runs the real client in its own synctest bubble. " +
 		"distinct_nontrivial = distinct (family, version, per-request outcome classes, connections used) tuples")
 	r.Assume("the reference model reads the bytes the scripted broker actually sent on connection 1 strictly in order, one frame per outstanding request (Kafka's in-order pipelining); connections opened later are answered honestly",
 		"kmsg.MetadataResponse.ReadFrom decides whether a correctly framed body is well-formed",
-		"a call may take at most (n+2) x RequestTimeoutOverhead(1s) + n x 300ms throttle + 100ms of virtual time (n sequential read timeouts on the first connection, one write timeout, one read timeout on a replacement connection)",
+		"a call may take at most B = (n+2) x RequestTimeoutOverhead(1s) + n x 300ms throttle + 100ms of virtual time (n sequential read timeouts on the first connection, one write timeout, one read timeout on a replacement connection), plus the sum of the 60s throttles the script sent while the connection lived",
+		"once the client itself has reported a connection-fatal error to any caller at time t (read/write error, timeout, framing or correlation error, 'connection has died'; not a cancellation, not an undecodable body), the connection and its broker's throttle are gone: every call issued by then must return by t + B (calls issued later: issue + B) - a throttle of a dead connection is not one of the configured timeouts",
 		"a panic in any client goroutine kills the worker process and is attributed to the case that was running; a second completion of a request's promise panics (close of closed channel) and is caught the same way")
 
 	workers := ev.Workers()
